@@ -134,7 +134,8 @@ pub fn str_to_optimization(opt: &str) -> Optimization {
         "solidity_keccak256" => Optimization::SolidityKeccak256,
         "solidity_math" => Optimization::SolidityMath,
         "sstore" => Optimization::Sstore,
-        "string_errors" => Optimization::StringErrors,
+        //`string_error` is the spelling used in docs/identified-optimizations.md
+        "string_errors" | "string_error" => Optimization::StringErrors,
         "optimal_comparison" => Optimization::OptimalComparison,
         "short_revert_string" => Optimization::ShortRevertString,
 
